@@ -104,6 +104,10 @@ pub struct WorkerCtl {
     pub grants: u64,
     pub parked: Option<Parked>,
     pub steps_done: u64,
+    /// Trace length when the worker was registered (disambiguates re-used tids).
+    pub reg_pos: usize,
+    /// Harness label (store instance number).
+    pub label: u32,
 }
 
 pub struct Ctl {
@@ -277,9 +281,16 @@ pub fn with_ctl<R>(f: impl FnOnce(&mut Ctl) -> R) -> Option<R> {
     g.as_mut().map(|c| f(c))
 }
 
-pub fn register_worker(tid: i32, gated: bool) {
+pub fn register_worker(tid: i32, gated: bool, label: u32) {
     with_ctl(|c| {
-        c.workers.push(WorkerCtl { tid, gated, grants: 0, parked: None, steps_done: 0 });
+        // a re-used tid: the old entry is certainly dead, retire it
+        for w in c.workers.iter_mut() {
+            if w.tid == tid {
+                w.tid = -w.tid;
+            }
+        }
+        let reg_pos = c.trace.len();
+        c.workers.push(WorkerCtl { tid, gated, grants: 0, parked: None, steps_done: 0, reg_pos, label });
     });
 }
 
